@@ -299,6 +299,7 @@ def _canon_key(x):
 
 class Interp(object):
     MAX_STEPS = 200000
+    MAX_CALL_DEPTH = 40
     set_order = 'fwd'
 
     def __init__(self, repo, facts):
@@ -527,7 +528,7 @@ class Interp(object):
         if not isinstance(node, ast.Lambda) and any(unparse(d).split('.')[-1] == 'contextmanager' for d in node.decorator_list) \
                 and not getattr(self, '_raw_generator', False):
             return self.context_manager(fv, args, kwargs)
-        if self.call_depth > 40:
+        if self.call_depth > self.MAX_CALL_DEPTH:
             raise Uninterpretable('call depth exceeded in %s' % fv.name)
         a = node.args
         params = [x.arg for x in a.posonlyargs + a.args]
